@@ -236,6 +236,14 @@ class SStr:
                     break
             if ok and not conds:
                 return True
+        if a and b and isinstance(a[0], Lit) and isinstance(b[0], Lit):
+            n = min(len(a[0].s), len(b[0].s))
+            if a[0].s[:n] != b[0].s[:n]:
+                return False
+        if a and b and isinstance(a[-1], Lit) and isinstance(b[-1], Lit):
+            n = min(len(a[-1].s), len(b[-1].s))
+            if a[-1].s[len(a[-1].s) - n :] != b[-1].s[len(b[-1].s) - n :]:
+                return False
         # delimiter alignment: exact when both sides have the same literal skeleton whose characters are
         # outside every variable segment's alphabet
         al = self._aligned_eq(other)
